@@ -154,6 +154,8 @@ class Interp:
         g = self.E.lookup_global(fr.module, name)
         if g is not None:
             return self.from_table(g)
+        if fr.module and (fr.module + "." + name) in self.E.src.funcs:
+            return VFunc(fr.module + "." + name)        # module-level function of an indexed file (lemma programs)
         if name in self.E.builtin_names:
             return VFunc("builtins." + name)
         if self.E.is_exception_name(name):
@@ -1155,6 +1157,8 @@ class Interp:
                 raise Unsupported("spec: attribute %s of None" % name)
             self.raise_py("AttributeError", "'NoneType' object has no attribute '%s'" % name, site)
         if isinstance(base, VFunc):
+            if base.qualname in ("builtins.int", "int") and name == "from_bytes":
+                return VFunc("int.from_bytes")
             if name in ("__name__",):
                 return ropes.const_seq(base.qualname.rsplit(".", 1)[-1])
             if name == "__contains__" and base.self is not None:
